@@ -31,9 +31,11 @@ impl SrcLines {
 /// Normalised panic site: `src/compile.rs|<trimmed text of the line>` for repository files,
 /// `dep:<crate dir>/<path>:<line>|<message head>` for anything else.
 pub fn panic_key(src: &mut SrcLines, file: &str, line: u32, msg: &str) -> String {
-    let repo_rel = file.strip_prefix("/repo/").or_else(|| if file.starts_with("src/") { Some(file) } else { None });
+    // the tree under test is /repo; a sandboxed run (tools/try_mutant_sandbox.sh) points VERIF_REPO elsewhere
+    let repo = std::env::var("VERIF_REPO").unwrap_or_else(|_| "/repo".to_string());
+    let repo_rel = file.strip_prefix(&format!("{}/", repo)).or_else(|| if file.starts_with("src/") { Some(file) } else { None });
     if let Some(rel) = repo_rel {
-        let text = src.line(&format!("/repo/{}", rel), line);
+        let text = src.line(&format!("{}/{}", repo, rel), line);
         return format!("PANIC|{}|{}", rel, text);
     }
     // ~/.cargo/registry/src/<index>/<crate>-<ver>/src/x.rs  or  /rustc/<hash>/library/...
